@@ -103,7 +103,10 @@ pub fn run_driver(seed: u64, mode: ChunkMode, st: &mut DStats) {
     for i in 0..n_calls {
         let marker = format!("m{i}-{}", STRS[rng.below(6) as usize]);
         if rng.chance(1, 5) {
-            msgs.push(json!({"jsonrpc": "2.0", "method": "block_added", "params": {"marker": marker, "block_added": {"hash": "00", "height": i}}}));
+            // one notification in four makes its handler fail (e.g. a shape the handler cannot
+            // deserialize); that must not disturb any request
+            let fail = rng.chance(1, 4);
+            msgs.push(json!({"jsonrpc": "2.0", "method": "block_added", "params": {"marker": marker, "fail": fail, "block_added": {"hash": "00", "height": i}}}));
             expect_notifs.push(marker);
         } else {
             let id: Value = if rng.chance(1, 2) { json!(100 + i) } else { json!(format!("cln:htlc_accepted#{i}/é")) };
@@ -211,7 +214,14 @@ pub fn run_driver(seed: u64, mode: ChunkMode, st: &mut DStats) {
             .subscribe("block_added", move |_p: Plugin<St>, v: Value| {
                 let marker = v.get("marker").and_then(|m| m.as_str()).unwrap_or("?").to_string();
                 sh2.lock().unwrap().notif_observed.push(marker);
-                async move { Ok(()) }
+                let fail = v.get("fail").and_then(|f| f.as_bool()).unwrap_or(false);
+                async move {
+                    if fail {
+                        Err(anyhow::anyhow!("notification handler failed"))
+                    } else {
+                        Ok(())
+                    }
+                }
             });
         let state = shared.clone();
         let failed2 = failed.clone();
